@@ -313,7 +313,9 @@ func (o *lifeOracle) c12(e *Env, si *StepInfo) {
 					continue
 				}
 				w, c := hasWaiting(prev, po)
-				full := w == 0 && c == len(po.Shards) && c == int(po.Replica)
+				// fully stored: as many stored shards as paid replicas (a stray waiting shard next to them
+				// does not make the order any less stored)
+				full := c >= int(po.Replica) && (w > 0 || c == len(po.Shards))
 				if !full {
 					continue
 				}
